@@ -47,6 +47,17 @@ def make_top(*components):
 PRE_ELABORATE = False     # set by the runner from config["pre"] before every run
 
 
+def elaborate_once(component):
+    """Elaborate a component and throw the result away (conversion / a first simulation). An
+    exception is C19's business."""
+    try:
+        Fragment.get(component, None)
+    except RecursionError as e:
+        raise Unbuildable(f"RecursionError during elaboration: {e}") from e
+    except Exception as e:
+        raise Unbuildable(f"{type(e).__name__} during elaboration: {e}") from e
+
+
 def build_sim(top):
     """Elaborate and compile. For every world except `elab` (C19) a failure here is not this
     property's business: counted as unbuildable.
